@@ -1435,7 +1435,9 @@ class GenFunctions(object):
             elif arg_typemap.sgroup == "string":
                     cfi_args[arg.name] = True
             elif arg_typemap.sgroup == "char":
-                if arg.is_indirect():
+                if arg.is_indirect() == 1:
+                    # 'char **' has no CFI statements,
+                    # it is passed by the bufferify function.
                     cfi_args[arg.name] = True
         has_cfi_arg = any(cfi_args.values())
 
